@@ -236,6 +236,14 @@ pub enum FinalReply {
     ConstChecksum(u8),
     /// RC4(key + 1 of another certificate) obtained by xor-ing into the honest ciphertext, checksum zeroed (relay without the session key)
     RelayedXor,
+    /// properly sealed and signed, plaintext = key + 1 with these (position modulo length, mask) bytes xor-ed: differences that
+    /// cancel out under a sloppy comparison (the same mask twice, swapped bytes ...)
+    PlainXor(Vec<(u16, u8)>),
+    /// properly sealed and signed, plaintext = the first n bytes of key + 1 (n modulo the length; 0 = empty)
+    PlainTruncated(u16),
+    /// properly sealed and signed, plaintext = the key with 1 added to its first byte WITHOUT carry (differs from key + 1 only
+    /// when that byte is 0xFF)
+    NoCarryPlusOne,
 }
 
 #[derive(Serialize, Deserialize, Hash, Clone, Debug)]
@@ -729,6 +737,26 @@ fn build_final(kind: &FinalReply, id: &Identity, keys: &crypto::SessionKeys, to_
             }
             wrap(&t)
         }
+        FinalReply::PlainTruncated(n) => {
+            let k = ntlm::increment_le(spk);
+            let keep = *n as usize % k.len().max(1);
+            wrap(&seal(&k[..keep]))
+        }
+        FinalReply::NoCarryPlusOne => {
+            let mut k = spk.clone();
+            if let Some(b) = k.first_mut() {
+                *b = b.wrapping_add(1);
+            }
+            wrap(&seal(&k))
+        }
+        FinalReply::PlainXor(v) => {
+            let mut k = ntlm::increment_le(spk);
+            let n = k.len().max(1);
+            for (pos, mask) in v {
+                k[*pos as usize % n] ^= *mask;
+            }
+            wrap(&seal(&k))
+        }
         FinalReply::WrongSeq(s) => {
             let mut c = to_client.clone();
             c.seq = if *s == 0 { 1 } else { *s };
@@ -760,6 +788,57 @@ pub struct TlsRun {
 
 pub fn connector_of(cfg: &ClientCfg) -> Connector {
     reconfigure(Connector::new(), cfg)
+}
+
+/// the same settings, with the setters called in the order encoded by `cfg.setter_order` (the final configuration is the
+/// same whatever the order, and a boolean toggled to the wrong value first still ends at the right one)
+fn reconfigure_ordered(c: Connector, cfg: &ClientCfg) -> Connector {
+    let toggle = cfg.setter_order & 0x8000 != 0;
+    let mut remaining: Vec<u8> = (0..10).collect();
+    let mut v = (cfg.setter_order & 0x7FFF) as usize;
+    let mut c = c;
+    while !remaining.is_empty() {
+        let k = remaining.remove(v % remaining.len());
+        v = v / 3 + 1;
+        c = match k {
+            0 => c.screen(cfg.width, cfg.height),
+            1 => c.credentials(cfg.domain.clone(), cfg.user.clone(), cfg.password.clone()),
+            2 => {
+                if toggle {
+                    c = c.set_restricted_admin_mode(!cfg.restricted_admin);
+                }
+                c.set_restricted_admin_mode(cfg.restricted_admin)
+            }
+            3 => {
+                if toggle {
+                    c = c.auto_logon(!cfg.auto_logon);
+                }
+                c.auto_logon(cfg.auto_logon)
+            }
+            4 => {
+                if toggle {
+                    c = c.blank_creds(!cfg.blank_creds);
+                }
+                c.blank_creds(cfg.blank_creds)
+            }
+            5 => c.check_certificate(cfg.check_certificate),
+            6 => c.name(cfg.name.clone()),
+            7 => {
+                if toggle {
+                    c = c.use_nla(!cfg.nla);
+                }
+                c.use_nla(cfg.nla)
+            }
+            8 => c.layout(cfg.layout()),
+            _ => {
+                if let Some(h) = &cfg.hash {
+                    c = c.set_password_hash(h.clone());
+                }
+                c
+            }
+        };
+    }
+    c
 }
 
 /// apply to an existing Connector only the settings in which `new` differs from `old` (the way an application
@@ -803,6 +882,9 @@ pub fn reconfigure_diff(c: Connector, old: &ClientCfg, new: &ClientCfg) -> Conne
 
 /// apply every setting of `cfg` to an existing Connector (a password hash, once set, cannot be unset through the API)
 pub fn reconfigure(c: Connector, cfg: &ClientCfg) -> Connector {
+    if cfg.setter_order != 0 {
+        return reconfigure_ordered(c, cfg);
+    }
     let mut c = c
         .screen(cfg.width, cfg.height)
         .credentials(cfg.domain.clone(), cfg.user.clone(), cfg.password.clone())
